@@ -27,6 +27,51 @@ __CPROVER_loop_invariant(probe <= arrMask && arrMask == ((uint32_t)1 << lgArrInt
 '''},
 }
 
+CL = "hll/include/CouponList-internal.hpp"
+MEMBERS = ["lgConfigK_", "tgtHllType_", "mode_", "couponCount_", "oooFlag_", "coupons_"]
+PRELUDE2 = r"""
+struct couponlist { uint8_t lgConfigK_; uint8_t tgtHllType_; uint8_t mode_; uint32_t couponCount_; bool oooFlag_; uint32_t* coupons_; size_t coupons_size; };
+/* ghost: an arbitrary slot and its content before the call; the slot where the coupon ends up; whether a slot was written; which promotion was requested */
+size_t g_i; uint32_t g_old; size_t g_w; int g_written; int g_promoted;
+/* promotion of a full list (assumed: defined elsewhere, returns the new implementation object) */
+void* promote_to_hll(struct couponlist* s) __CPROVER_assigns(g_promoted) __CPROVER_ensures(g_promoted == 2);
+void* promote_to_set(struct couponlist* s) __CPROVER_assigns(g_promoted) __CPROVER_ensures(g_promoted == 1);
+"""
+list_update = {
+    "name": "list_couponUpdate", "file": CL, "members": MEMBERS,
+    "match": r"HllSketchImpl<A>\* CouponList<A>::couponUpdate\(uint32_t coupon\)",
+    "sig": "void* list_couponUpdate(struct couponlist* self, uint32_t coupon)", "throw_rv": "0", "nloops": 1,
+    "pre_rules": [(r"coupons_\.size\(\)", "coupons_size", 2), (r"return this;", "return self;", 2),
+                  (r"promoteHeapListOrSetToHll\(\*this\)", "promote_to_hll(self)", 1), (r"promoteHeapListToSet\(\*this\)", "promote_to_set(self)", 1)],
+    "rules": [(r"(?<![\w>])coupons_size", "self->coupons_size", 2)],
+    "inserts": [(r"self->coupons_\[i\] = coupon;", "g_w = i; g_written = 1;", "after", 1),
+                (r"return self;(?=\s*\}\s*\})", "g_w = i;", "before", 1)],
+    "contract": r"""
+__CPROVER_requires(__CPROVER_rw_ok(self, sizeof(*self)) && self->coupons_size >= 1 && self->coupons_size <= ((size_t)1 << 26) && __CPROVER_rw_ok(self->coupons_, self->coupons_size * sizeof(uint32_t)))
+__CPROVER_requires(verif_exc == 0 && coupon != hll_constants_EMPTY && g_i < self->coupons_size && g_old == self->coupons_[g_i] && g_written == 0 && g_promoted == 0)
+__CPROVER_assigns(verif_exc, self->couponCount_, g_w, g_written, g_promoted, __CPROVER_object_whole(self->coupons_))
+/* accepted: the coupon is in the list afterwards, at slot g_w */
+__CPROVER_ensures(verif_exc == 0 ==> (g_w < self->coupons_size && self->coupons_[g_w] == coupon))
+/* the count grows exactly when a slot was written, and a slot is written only if no earlier slot already holds the coupon (no coupon twice) and the slot was EMPTY */
+__CPROVER_ensures(self->couponCount_ == __CPROVER_old(self->couponCount_) + (uint32_t)g_written)
+__CPROVER_ensures((verif_exc == 0 && g_written && g_i < g_w) ==> (g_old != coupon && g_old != hll_constants_EMPTY))
+/* every other slot keeps its content; a written slot was EMPTY */
+__CPROVER_ensures(self->coupons_[g_i] == g_old || (g_written && g_i == g_w && g_old == hll_constants_EMPTY && self->coupons_[g_i] == coupon))
+/* a duplicate leaves everything as it was and returns the same object */
+__CPROVER_ensures((verif_exc == 0 && !g_written) ==> (__CPROVER_return_value == self && g_promoted == 0))
+/* promotion exactly when the write filled the list: to HLL below lgConfigK 8, else to a hash set */
+__CPROVER_ensures((verif_exc == 0 && g_written) ==> (g_promoted == (self->couponCount_ == (uint32_t)self->coupons_size ? (self->lgConfigK_ < 8 ? 2 : 1) : 0) && (g_promoted != 0 || __CPROVER_return_value == self)))
+/* refused only when the list has no EMPTY slot and does not hold the coupon */
+__CPROVER_ensures(verif_exc != 0 ==> (g_old != hll_constants_EMPTY && g_old != coupon && !g_written))
+""",
+    "loops": {1: r"""
+__CPROVER_assigns(i, verif_exc, self->couponCount_, g_w, g_written, g_promoted, __CPROVER_object_whole(self->coupons_))
+__CPROVER_loop_invariant(i <= self->coupons_size && verif_exc == 0 && g_written == 0 && g_promoted == 0 && self->couponCount_ == __CPROVER_loop_entry(self->couponCount_) && self->coupons_[g_i] == g_old)
+__CPROVER_loop_invariant(g_i < i ==> (g_old != coupon && g_old != hll_constants_EMPTY))
+__CPROVER_decreases(self->coupons_size - i)
+"""},
+}
+
 UNIT = {
     "id": "hll_coupon_set_find", "property": "C03",
     "clause": "coupon hash set probe (find in CouponHashSet-internal.hpp): for every array size 2..2^26 and every content, the result is the index of a slot holding the coupon, or the "
@@ -48,3 +93,26 @@ void h_find(void) {
     "jobs": [{"name": "find", "entry": "h_find", "enforce": "coupon_set_find", "loops": True, "expect_loop_steps": 1, "timeout": 300}],
     "assumptions": ["set semantics over whole probe orbits (a coupon stored away from its home slot is found; no coupon is stored twice) are not decided: the contract is per call"],
 }
+
+UNIT2 = {
+    "id": "hll_coupon_list_update", "property": "C03",
+    "clause": "CouponList::couponUpdate for every list size and content: the coupon is in the list afterwards; a slot is written only if it was EMPTY and no earlier slot holds the coupon "
+              "(distinct coupons, none twice); the count grows exactly with a write; every other slot is unchanged; promotion is requested exactly when the write filled the list "
+              "(to HLL below lgConfigK 8, otherwise to a hash set)",
+    "consts": crules.HLL_CONSTS,
+    "prelude": PRELUDE2,
+    "parts": [list_update],
+    "harness": r"""
+void h_list_update(void) {
+  struct couponlist* s = malloc(sizeof(*s)); __CPROVER_assume(s != NULL); size_t n = nondet_size();
+  __CPROVER_assume(n >= 1 && n <= ((size_t)1 << 26));
+  s->coupons_ = malloc(sizeof(uint32_t) * n); __CPROVER_assume(s->coupons_ != NULL); s->coupons_size = n;
+  verif_exc = 0;
+  void* r = list_couponUpdate(s, nondet_u32());
+  VERIF_CANARY_POINT;
+}
+""",
+    "jobs": [{"name": "list_couponUpdate", "entry": "h_list_update", "enforce": "list_couponUpdate", "replace": ["promote_to_hll", "promote_to_set"], "loops": True, "expect_loop_steps": 1, "timeout": 300}],
+    "assumptions": ["promoteHeapListOrSetToHll / promoteHeapListToSet enter by a frame contract (they build a new implementation object by replaying the coupons; the replay loop itself is not under contract)"],
+}
+UNITS = [UNIT, UNIT2]
